@@ -68,7 +68,8 @@ def enum_cfg(cfg):
         mod = sys.modules["pybads.poll.poll_mads_2n"]
     if not hasattr(mod, "rnd") or not hasattr(mod, "poll_mads_2n"):
         raise HarnessError("missing seam pybads.poll.poll_mads_2n.rnd")
-    scale = np.ones(D) if scale_kind == "ones" else np.array([0.5, 2.0, 1.0, 4.0][:D])
+    # 'neg': the poll scale BADS stores for a variable without finite bounds is negative (-2); it must cancel out all the same
+    scale = np.ones(D) if scale_kind == "ones" else (np.array([-2.0, 1.0, -2.0, 0.5][:D]) if scale_kind == "neg" else np.array([0.5, 2.0, 1.0, 4.0][:D]))
     mesh = 2.0**-3
     smesh = mesh * ratio if ratio > 0 else mesh * 2.0**-10
     nmax = max(1, int(np.round(smesh / mesh)))
@@ -131,6 +132,8 @@ def run(ctx):
                 if q and sk == "mixed" and D == 3 and ratio == 4:
                     continue
                 cfgs.append((D, ratio, sk, upper))
+            if ratio in (1, 2):
+                cfgs.append((D, ratio, "neg", "extremes" if D == 3 else "full"))
     total = 0
     patterns = 0
     for cfg, n, bad, kinds in pmap(enum_cfg, cfgs):
